@@ -16,6 +16,21 @@ WORK = os.path.join(ROOT, '.work')
 EVIDENCE = os.path.join(ROOT, 'evidence')
 REPLAYS = os.path.join(ROOT, 'replays')
 NPROC = 16
+REPO = '/repo'
+
+# Developer aid, never set by a registered command: VERIF_ALT_REPO=<scratch worktree> runs a check against
+# that tree instead of /repo (own copy of the harness, own evidence / replay / work directories), so that
+# seeded changes can be tried while /repo stays untouched.
+ALT = os.environ.get('VERIF_ALT_REPO')
+if ALT:
+    ALT = os.path.abspath(ALT)
+    _alt = os.path.join('/var/tmp/verif-alt', hashlib.sha1(ALT.encode()).hexdigest()[:8])
+    os.makedirs(_alt, exist_ok=True)
+    HARNESS_SRC, HARNESS = HARNESS, os.path.join(_alt, 'harness')
+    WORK, EVIDENCE, REPLAYS = (os.path.join(_alt, d) for d in ('work', 'evidence', 'replays'))
+    for _d in (WORK, EVIDENCE, REPLAYS):
+        os.makedirs(_d, exist_ok=True)
+    REPO = ALT
 
 ENV = dict(os.environ, CARGO_NET_OFFLINE='true')
 
@@ -69,9 +84,16 @@ def build_ocaml():
 
 def build_harness(profile='release'):
     flag = '--release' if profile == 'release' else ''
+    if ALT:
+        os.makedirs(HARNESS, exist_ok=True)
+        sh('rsync -a --delete --exclude target --exclude Cargo.toml --exclude Cargo.lock %s/ %s/' % (HARNESS_SRC, HARNESS))
+        toml = open(os.path.join(HARNESS_SRC, 'Cargo.toml')).read().replace('"/repo/avro"', '"%s/avro"' % ALT)
+        tp = os.path.join(HARNESS, 'Cargo.toml')
+        if not os.path.exists(tp) or open(tp).read() != toml:
+            open(tp, 'w').write(toml)
     lock = os.path.join(HARNESS, 'Cargo.lock')
     if not os.path.exists(lock):
-        sh('cp /repo/Cargo.lock %s' % lock)
+        sh('cp %s/Cargo.lock %s' % (REPO, lock))
     p = sh('cargo build %s --offline' % flag, cwd=HARNESS, check=False, timeout=3000)
     if p.returncode != 0:
         raise Fail('harness build failed (does /repo still compile?):\n' + p.stderr[-6000:])
